@@ -248,6 +248,10 @@ def build_kw(kw):
 
 
 def fut_callback(name, fut):
+    # first a record that touches no loky code: describing the outcome below formats the exception's cause
+    # (_RemoteTraceback.__str__), where an injected delay may hold this thread - a daemon thread when the future is resolved
+    # by the queue feeder - until interpreter exit cuts it
+    log("fut_resolved", fut=name)
     try:
         if fut.cancelled():
             log("fut_done", fut=name, state="cancelled")
